@@ -1107,6 +1107,14 @@ class RailsConfig(BaseModel):
         if len(self.rails.output.flows) > 0:
             return False
 
+        # In Colang 2.x the output rails are the flow `output rails`
+        if self.colang_version == "2.x" and any(
+            (flow.get("name") if isinstance(flow, dict) else getattr(flow, "name", None))
+            == "output rails"
+            for flow in self.flows
+        ):
+            return False
+
         return True
 
     def __add__(self, other):
